@@ -70,13 +70,13 @@ def _repeatable(prog, rep):
     from vstat.guards import path_conditions as _pcs
     JM_ = "virocon.jointmodels"
     # does some marginal_icdf implementation of the package draw without a seed?
-    unseeded = []
+    unseeded = []      # marginal_icdf implementations that draw and cannot be seeded at all
+    seedable = []      # ... that draw with the random_state they are given (None unless the caller passes one)
     for q, f in prog.functions.items():
         if f.name == "marginal_icdf" and f.cls is not None:
             for n_ in ast.walk(f.node):
-                if isinstance(n_, ast.Call) and isinstance(n_.func, ast.Attribute) and n_.func.attr == "draw_sample" \
-                        and not any(k.arg == "random_state" for k in n_.keywords):
-                    unseeded.append((q, n_.lineno))
+                if isinstance(n_, ast.Call) and isinstance(n_.func, ast.Attribute) and n_.func.attr == "draw_sample":
+                    (seedable if any(k.arg == "random_state" for k in n_.keywords) else unseeded).append((q, n_.lineno))
     sites = [("virocon.contours.AndContour._compute", True), ("virocon.contours.OrContour._compute", True), ("virocon.contours.HighestDensityContour._check_grid", False)]
     for q, has_sample in sites:
         fn = prog.func(q)
@@ -90,16 +90,18 @@ def _repeatable(prog, rep):
                 if isinstance(n_, ast.Call) and not is_mi:
                     tc = b.term(n_.func, st)   # the bound method kept in a local name
                     is_mi = tc[0] == "attr" and tc[2] == "marginal_icdf"
+                if is_mi and not unseeded and any(k.arg == "random_state" and not (isinstance(k.value, ast.Constant) and k.value.value is None) for k in n_.keywords):
+                    continue    # the caller hands a seed to a seedable marginal_icdf
                 if is_mi:
                     lits = pcs.of(st)
                     only_without_sample = any(l == ("isnone", ("attr", SELF, "sample")) or l == ("isnone", ("param", "sample")) or (l[0] == "isnone" and "sample" in str(l)) for l in lits)
                     if not (has_sample and only_without_sample):
                         calls.append(st)
-        bad = bool(calls) and bool(unseeded)
+        bad = bool(calls) and bool(unseeded or seedable)
         rep.check(not bad, "C19.repeat", f"{q}:marginal_icdf", fn.where(calls[0]) if calls else fn.where(),
                   "no unseeded Monte-Carlo quantile enters the computation",
                   f"{'with a supplied sample ' if has_sample else ''}the computation still calls model.marginal_icdf (line(s) {[c.lineno for c in calls]}), which for a conditional variable is a "
-                  f"quantile of self.draw_sample(n) drawn WITHOUT a random_state ({unseeded[:2]}): two computations from the same inputs differ")
+                  f"quantile of a Monte-Carlo sample ({(unseeded or seedable)[:2]}) for which no random_state is given here: two computations from the same inputs differ")
     rep.expect_min("C19.repeat", 3)
 
 
